@@ -675,6 +675,7 @@ def rule_c14(ctx):
         members = any('self._values' in norm(r.value) for g in bodies for r in walk_own(g.node) if isinstance(r, ast.Return)) or \
             any('self.__class__(*' in norm(n) for g in bodies for n in walk_own(g.node) if isinstance(n, ast.Call))
         recorded = False
+        ancestry = False
         for g in bodies:
             rets = [norm(r.value) for r in walk_own(g.node) if isinstance(r, ast.Return) and r.value is not None]
             for n in walk_own(g.node):
@@ -683,12 +684,19 @@ def rule_c14(ctx):
                     recorded = True
                 if isinstance(n, ast.Call) and norm(n.func) == 'self.__class__' and any(norm(a) == 'self' for a in n.args):
                     recorded = True
+                    ancestry = True
+                if isinstance(n, ast.Call) and norm(n.func).endswith('._valueMap.update') and len(n.args) == 1 and \
+                        norm(n.args[0]) in ('self._valueMap', 'self.getValueMap()') and norm(n.func.value.value) in rets:
+                    ancestry = True
         rets_ok = all(isinstance(r.value, ast.Call) and any(isinstance(x, ast.Name) and x.id == f.params()[1] for x in ast.walk(r.value))
                       for r in walk_own(f.node) if isinstance(r, ast.Return))
         ctx.ob('C14.vmap', f, 'every result of adding a constraint contains that constraint', rets_ok,
                'a return path hands back a set without the added constraint (the derived type silently loses it)' if not rets_ok else 'ok')
         ctx.ob('C14.vmap', f, 'derived set keeps the member constraints and records the set it was derived from',
                members and recorded, 'members carried over: %s; receiver recorded in the derived set\'s value map: %s' % (members, recorded))
+        ctx.ob('C14.vmap', f, 'derived set inherits the ancestry of the set it was derived from', ancestry,
+               'the receiver\'s own value map is not carried over: a type derived in two steps is not recognised by its grandparent'
+               if not ancestry else 'value map of the receiver carried over')
     f = ctx.func('type.constraint.AbstractConstraintSet._setValues')
     txt = norm(f.node)
     ok = 'self._valueMap.add(constraint)' in txt and 'self._valueMap.update(constraint.getValueMap())' in txt
